@@ -126,6 +126,7 @@ def check(ctx, rep):
     rep.count("writes of test-then-use fields", nw, 4)
 
     dispatch_rule(ctx, rep)
+    reentry_rule(ctx, rep)
 
     addcb_rule(ctx, rep)
 
@@ -359,6 +360,31 @@ def addcb_rule(ctx, rep):
             rep.ob("R-ADDCB", key + ": append in the same critical section", ok, "on a pending future the callback must be appended under the same hold of the lock as the done() test and not called (appended: %d, called: %d)" % (len(apps), len(direct)), where_of(adc), trace_of(p))
     rep.require(kinds == {True, False}, "add_done_callback: expected a done and a pending path")
 
+
+
+def reentry_rule(ctx, rep):
+    """cancel() asks the subclass hook, which cancels the delegate, whose done-callbacks run at once and come back
+    into this same future through the 'my delegate was cancelled' entry.  That entry must do nothing while cancel()
+    is in progress (the flag cancel() raises around the hook): otherwise the future is cancelled and dispatched there,
+    and cancel() then notifies a future that is already notified -- RuntimeError out of cancel()."""
+    from .c03 import cancelling_flags
+    P = roles.proto(ctx)
+    m = P.cancelled_by_delegate
+    if m is None:
+        return
+    flags = cancelling_flags(ctx)
+    SELF = ("param", "self")
+    rep.rule("R-REENTRY", "the cancelled-by-delegate entry of the future base class has no effect while cancel() is in progress (cancelling flag set) or when the future is already done")
+    ps, it = ctx.paths(m, P.fut, depth=1, inline=lambda callee, ev, path: callee.owner is P.fut and not roles.is_dispatch(callee))
+    tested = False
+    for p in ps:
+        inprog = any(q.truth_of(p, ("attr", SELF, f)) is True for f in flags)
+        if any(q.truth_of(p, ("attr", SELF, f)) is not None for f in flags):
+            tested = True
+        if inprog:
+            eff = [e for e in p.calls() if q.is_super_call(e, "cancel") or (e.d["callee"] is not None and roles.is_dispatch(e.d["callee"]))]
+            rep.ob("R-REENTRY", "%s: no effect while cancel() is in progress" % m.qualname, not eff, "with the cancelling flag set the entry still cancels / dispatches: cancel() (which is waiting for its hook to return) then finds the future cancelled and notified already and raises RuntimeError('Future in unexpected state')", where_of(m), trace_of(p))
+    rep.ob("R-REENTRY", "%s looks at the cancelling flag" % m.qualname, tested and bool(flags), "the entry never tests the flag cancel() raises around its hook (%s): a delegate cancelled by our own cancel() re-enters here and cancels the future a second time" % sorted(flags), where_of(m))
 
 
 def dispatch_rule(ctx, rep):
